@@ -648,18 +648,23 @@ Proof.
            destruct (B7 K) as [K1 K2]. destruct (I E1 K1) as [A B C D (a & F1 & F2)].
            assert (Hi : p_index st = 0%nat) by (apply D; destruct (p_inited st); [discriminate|reflexivity]).
            destruct (K2 total a A B) as (b & G1 & G2); [rewrite Hi; apply Hcur0; exact Hi|exact F1|exact F2|].
-           constructor; rewrite ?B1, ?B2; auto.
-           ++ intros _. rewrite B4, B1. reflexivity.
-           ++ discriminate.
-           ++ exists b. rewrite B1 in *. auto.
+           constructor.
+           ++ rewrite B1. exact A.
+           ++ rewrite B1. exact B.
+           ++ intros _. rewrite B1. exact B4.
+           ++ intros Hn. rewrite B2 in Hn. discriminate.
+           ++ exists b. rewrite B1. split; assumption.
       * destruct docs; [|discriminate]. inversion H; subst st'; clear H. cbn [st1 p_disc p_doc_ok p_m].
         split; [intros E; apply andb_true_iff in E; apply E|]. split; [auto|]. split.
         -- intros L E. apply andb_true_iff in E. apply L, E.
         -- intros I E K. apply andb_true_iff in E. destruct E as [E1 E0]. destruct (I E1 K) as [A B C D F].
            assert (Hi : p_index st = 0%nat) by (apply D; destruct (p_inited st); [discriminate|reflexivity]).
-           constructor; cbn [p_tokens p_index p_inited p_current p_m]; auto.
+           constructor; unfold st1; cbn [p_tokens p_index p_inited p_current p_m].
+           ++ exact A.
+           ++ exact B.
            ++ intros _. rewrite Hi. apply Hcur0. exact Hi.
            ++ discriminate.
+           ++ exact F.
     + (* bump *)
       destruct (p_bump_spec _ _ _ H) as (B1 & B2 & B3 & B4 & B5 & B6 & B7).
       cbn [with_disc p_tokens p_inited p_index p_m p_disc p_doc_ok p_current op_ok] in *.
@@ -669,10 +674,12 @@ Proof.
       * intros I E K. destruct (B6 E) as [E1 _]. apply andb_true_iff in E1. destruct E1 as [E1 E0].
         destruct (B7 K) as [K1 K2]. destruct (I E1 K1) as [A B C D (a & F1 & F2)].
         destruct (K2 total a A B (C E0) F1 F2) as (b & G1 & G2).
-        constructor; rewrite ?B1, ?B2; auto.
-        -- intros _. rewrite B4, B1. reflexivity.
-        -- intros Hn. rewrite Hn in E0. discriminate.
-        -- exists b. rewrite B1 in *. auto.
+        constructor.
+        -- rewrite B1. exact A.
+        -- rewrite B1. exact B.
+        -- intros _. rewrite B1. exact B4.
+        -- intros Hn. rewrite B2, E0 in Hn. discriminate.
+        -- exists b. rewrite B1. split; assumption.
     + (* retag the current token *)
       inversion H; subst st'; clear H. unfold p_set_tok_kind. cbn [with_disc p_tokens p_index p_m p_doc p_inited p_doc_ok p_disc op_ok].
       destruct (Nat.ltb_spec (p_index st) (length (p_tokens st))) as [Hlt|Hge];
@@ -736,6 +743,6 @@ Proof.
   destruct (nth_error (p_tokens st) (p_index st)) as [t|] eqn:Hn.
   - (* a token of kind TkEof would be dead *)
     exfalso. unfold alive in B. rewrite Forall_forall in B. specialize (B t (nth_error_In _ _ Hn)). rewrite Hc in B.
-    revert B. unfold dead_kind, is_invalid_kind, is_trivia_kind, mem, pump_invalid_kinds, pump_trivia_kinds. vm_compute. discriminate.
-  - apply nth_error_None in Hn. rewrite firstn_all2 in F1 by exact Hn. eapply tiles_fun; eauto.
+    assert (Hdead : dead_kind TK_TkEof = true) by (vm_compute; reflexivity). congruence.
+  - apply nth_error_None in Hn. rewrite firstn_all2 in F1 by exact Hn. exact (tiles_fun _ _ _ _ F1 A).
 Qed.
